@@ -19,9 +19,9 @@ theorem c05_one_method_per_operation (s : Service) :
     and returns the response envelope — or `()` exactly when the operation has no output -/
 theorem c05_method_signature (opName : String) (op : BindOp) :
     (writeAsyncSoapCall opName op).head? = some
-      ("pub async fn " ++ asFieldName opName ++ "(&self, req: " ++ toPascalCase opName ++ "InputEnvelope) -> error::SoapResult<" ++
+      ("pub async fn " ++ asFieldName opName ++ "(&self, req: " ++ xmlNameToRustName opName ++ "InputEnvelope) -> error::SoapResult<" ++
         (match op.output with
-         | some _ => toPascalCase opName ++ "OutputEnvelope"
+         | some _ => xmlNameToRustName opName ++ "OutputEnvelope"
          | none => "()") ++ "> {\n") := by
   cases h : op.output <;> simp [writeAsyncSoapCall, h, String.append_assoc]
 
